@@ -592,6 +592,7 @@ impl World for C19 {
                 "end points satisfy rand's own contract: every component low < high (<= for inclusive), raw hue low < high with span <= 360 degrees, HWB ends inside the cone with blackness <= 0.9; components that go through sqrt/cbrt keep >= 1e-3 of their span between the ends",
                 "containment is exact for components that pass straight through rand's Uniform; components that go through an invertible transform get a tolerance that follows the conditioning of that transform in the component type (DESIGN §4.3)",
                 "the volume-uniformity oracle is statistical: chi-square, 16 bins per coordinate and 4x4 per coordinate pair, threshold p < 1e-9, fair streams only; it cannot be a seed-independent statement",
+                "on a slice of the shape (one component with equal ends: zero volume) 'uniform with respect to volume' is read as the thin-slab limit, i.e. the other coordinates keep the distribution they have in the solid — what any sampler that is continuous in its end points gives",
             ],
             real: vec![
                 "palette macros/random.rs (cartesian, cylinder, cone, bicone, hwb samplers)",
